@@ -67,9 +67,8 @@ func (p *resultsPrinter) printNode(node *CandidateNode, writer io.Writer) error 
 func removeLastEOL(b *bytes.Buffer) {
 	data := b.Bytes()
 	n := len(data)
-	if n >= 2 && data[n-2] == '\r' && data[n-1] == '\n' {
-		b.Truncate(n - 2)
-	} else if n >= 1 && (data[n-1] == '\r' || data[n-1] == '\n') {
+	// the encoders end what they write with a line feed; a carriage return before it belongs to the value
+	if n >= 1 && data[n-1] == '\n' {
 		b.Truncate(n - 1)
 	}
 }
